@@ -192,4 +192,9 @@ def r3(ctx):
         ctx.check("'..' in parts" in t, "C17.R3", fi, "'..' components are refused", witness=t)
 
 
-RULES = [("C17.R1", r1), ("C17.R2", r2), ("C17.R3", r3)]
+def r_idioms(ctx):
+    from .common import repo_idioms
+    repo_idioms(ctx, "C17.R4", ('http_server',))
+
+
+RULES = [("C17.R1", r1), ("C17.R2", r2), ("C17.R3", r3), ("C17.R4", r_idioms)]
